@@ -144,7 +144,7 @@ def cases(tier, seed):
         firsts = [[("create", t), op2] for t in TYPES for op2 in [("create", "T"), ("create", "Org"), ("drop", 0), ("query", "T"), ("query-explicit", "T"), ("declare", "T", 1), ("declare", "T", 0)]]
     for f in firsts:
         nm = "history|first=%s" % "+".join(":".join(map(str, o)) for o in f)
-        cs.append(Case(nm + "|L=%d" % L, history_case(L, f), key=nm, reset=W.world_reset, validate=0, timeout=900 if tier == "quick" else 3000, max_paths=400000))
+        cs.append(Case(nm + "|L=%d" % L, history_case(L, f), key=nm, reset=W.world_reset, validate=0, timeout=900 if tier == "quick" else 3000, max_paths=400000, cex_grace=10**9))
     return cs
 
 
